@@ -101,6 +101,7 @@ pub fn spec(id: &str) -> Spec {
             p.spare_max = 4;
             p.w_conf = 45;
             p.illegal_conf_pm = 350;
+            p.conf_exercise_pm = 500;
             p.run_len = (800, 3500);
             p.lazy_pm = 350;
             p.slow_round_pm = 200;
